@@ -14,7 +14,7 @@ from harness import runs, runcommon, actcorr, translate, fpcorr
 
 ID = "C09"
 NEEDS_GEN = True
-THEOREM_MODULES = ["JF.Props.C09", "JF.Props.Footprints", "JF.Gen.WiringsSound"]
+THEOREM_MODULES = ["JF.Props.C09", "JF.Props.Footprints", "JF.Props.SystemInv", "JF.Gen.WiringsSound"]
 COMPONENTS = ["act"]
 ASSUMPTIONS = [
     "footprint tables (JF/Model/Wiring.lean: `affects`, `reads`) are hypotheses of the link theorem (`FootprintsSound`); for point-mass "
